@@ -936,10 +936,15 @@ func (s *UploadStream) Close() error {
 		}
 	}
 
-	// update marker if bucket is tracked
+	// update marker if bucket is tracked; a marker that a concurrent cleanup
+	// has already flagged as deleted must not be restored: the cleanup goes on
+	// to remove the chunks, and the upload would be claimed without them
 	if s.bucket.tracked {
 		res, err := s.bucket.markers.ReplaceOne(s.context, bson.M{
 			"_id": s.marker.ID,
+			"state": bson.M{
+				"$ne": BucketMarkerStateDeleted,
+			},
 		}, &BucketMarker{
 			ID:        s.marker.ID,
 			File:      s.id,
